@@ -30,7 +30,7 @@ Print Assumptions C31_cache_transparent_encode.
 
 (* Equality cannot be claimed for encode: by design the cache hands back the stream it decoded.
    (This is also how a stream that only mitmproxy's lenient decoders accept gets replayed:
-   finding cache-replays-nonstrict-stream.) *)
+   findings cache-replays-lenient-gzip-stream, cache-replays-deflate-trailing-data.) *)
 Theorem C31_cache_transparent_encode_exact_refuted :
   exists (C : codecs) (h : list call) (d n err : bytes),
     contract C /\
